@@ -1,3 +1,4 @@
+import itertools
 import operator
 from datetime import datetime
 try:
@@ -253,7 +254,7 @@ def parse_filter(filter):
 
 ## --- Generate python to apply filter
 FILTER_CACHE_LRU_SIZE = 500
-_id_function = 0
+_id_function = itertools.count()
 
 
 class _NotFoundValue():
@@ -369,12 +370,11 @@ class _FnWrapper():
 
 @lru_cache(maxsize=FILTER_CACHE_LRU_SIZE)
 def _filter_function(filter):
-    global _id_function
     consts = []
     def_filter = _generate_filter_in_python(parse_filter(filter)._head, [], consts)
-    fun_name = "_gen_hsfilter_" + str(_id_function)
+    # next() on a count is atomic: two threads never get the same name
+    fun_name = "_gen_hsfilter_" + str(next(_id_function))
     function_template = "def %s(_grid, _entity, _c=()):\n  return " % fun_name + "".join(def_filter)
-    _id_function += 1
     wrapper = _FnWrapper(fun_name, function_template)
     wrapper.get().__defaults__ = (tuple(consts),)
     return wrapper
